@@ -182,6 +182,7 @@ private:
 #ifdef ASL_VERIF
 		asl_verif_point(12, p);
 #endif
+		atomicFence(); // the copy must be complete before the creator is released: it reuses the context's stack slot
 		((Context<Func>*)p)->ready = true;
 		s.f();
 #ifdef ASL_VERIF
@@ -201,6 +202,7 @@ private:
 #ifdef ASL_VERIF
 		asl_verif_point(12, p);
 #endif
+		atomicFence(); // the copy must be complete before the creator is released: it reuses the context's stack slot
 		((Context<Func>*)p)->ready = true;
 		for (Long i = s.i0; i < s.i1; i += s.s) // 64 bit index: i + s.s can exceed INT_MAX
 		{
